@@ -193,8 +193,45 @@ func (g *ExprGen) PosNumber() Expr {
 		return num(strconv.Itoa(5 + r.Intn(100)))
 	case 5:
 		return bin("div", num("1"), num("0"))
+	case 6:
+		// a hair off an integer: [n] selects only when n IS a position
+		k := strconv.Itoa(1 + r.Intn(3))
+		return pick(r, []Expr{
+			bin("*", bin("+", num("0.1"), num("0.2")), num("10")), // 3.0000000000000004
+			num("0.9999999999"), num("1.0000000001"), num("2.0000000000001"), num("1.9999999999999"),
+			bin("-", call("last"), num("0.0000000001")), bin("+", num(k), num("0.00000000001")),
+			bin("-", num(k), bin("div", num("1"), num("100000000000"))),
+		})
 	}
 	return num(strconv.Itoa(1 + r.Intn(4)))
+}
+
+// PrincipalPred: a predicate made of ELEMENT name tests, for a step on the attribute or the
+// namespace axis (inside the predicate the principal node type is that of the inner axes)
+func (g *ExprGen) PrincipalPred() Expr {
+	r := g.R
+	nm := func() NodeTest {
+		if r.Chance(1, 3) {
+			return NodeTest{Kind: "any"}
+		}
+		return NodeTest{Kind: "name", Local: pick(r, g.Locals)}
+	}
+	up := &Stp{Axis: "parent", Test: NodeTest{Kind: "node"}, Abbrev: true}
+	switch r.Intn(7) {
+	case 0:
+		return &EPath{Steps: []*Stp{up, {Axis: "child", Test: nm(), Abbrev: true}}}
+	case 1:
+		return &EPath{Steps: []*Stp{{Axis: "parent", Test: nm()}}}
+	case 2:
+		return bin(">=", call("count", &EPath{Steps: []*Stp{up, {Axis: "child", Test: nm(), Abbrev: true}}}), num("1"))
+	case 3:
+		return &EPath{Abs: true, Steps: []*Stp{{Axis: "child", Test: nm(), Abbrev: true}}}
+	case 4:
+		return &EPath{Steps: []*Stp{up, {Axis: "child", Test: nm(), Abbrev: true, Preds: []Expr{pick(r, []Expr{call("last"), num("1"), num("2")})}}}}
+	case 5:
+		return &EPath{Steps: []*Stp{{Axis: "ancestor", Test: nm()}}}
+	}
+	return &EPath{Steps: []*Stp{up, {Axis: pick(r, []string{"following-sibling", "preceding-sibling", "descendant"}), Test: nm()}}}
 }
 
 func (g *ExprGen) Pred(depth int) Expr {
@@ -344,7 +381,8 @@ var numberStrings = []string{"1", "12", " 12 ", "\t12\n", "-1", "- 1", "-", ".",
 	"10000000000000000000000000000000000000000000000000000000000000000000000000000000000000000000000000000000000000000000000000000000000000000000000000000000000000000000000000000000000000000000000000000000000000000000000000000000000000000000000000000000000000000000000000000000000000000000000000000000000000000000000000000000000000000000000000000000000000000000000000000000000000000000000000000000000000000", "9007199254740993", "179769313486231580793728971405303415079934132710037826936173778980444968292764750946649017977587207096330286416692887910946555547851940402630657488671505820681908902000708383676273854845817711531764475730270069855571366959622842914819860834936475292719074168444365510704342711559699508093042880177904174497791.9", "4.9e-324", "0.000000000000000000000000000000000000000000000001", "1.",
 	"1.5.2", "1..2", "٣", "1 ", "\r\n7\r\n", "-\t7", "0x1p4", "1d", "1f", "1e", "e1", ".e1", "0.", "-.", "+.5", "2147483648", "4294967296", "1000000000000000000000",
 	"0.5", "-0.5", "1.5", "-1.5", "2.5", "-2.5",
-	"\u00a05", "5\u00a0", "\u20037", "7\u3000", "\u00852", "\v3", "4\f", "\u00a0 6 \u00a0", "\ufeff8"}
+	"\u00a05", "5\u00a0", "\u20037", "7\u3000", "\u00852", "\v3", "4\f", "\u00a0 6 \u00a0", "\ufeff8",
+	" -5", "\n\t-7.5\n", " -.5 ", "  -0", "\r-12.", " - 5", "-5 ", " -"}
 
 // A number as an expression: a literal when the value has a plain numeral, else a variable.
 func (g *ExprGen) NumLiteralText() string {
